@@ -48,6 +48,14 @@ impl SwiftField for Field54A {
         }
 
         // Parse BIC code
+        if lines.len() > line_idx + 1 {
+            return Err(ParseError::InvalidFormat {
+                message: format!(
+                    "Field 54A has {} line(s) after the BIC",
+                    lines.len() - line_idx - 1
+                ),
+            });
+        }
         let bic = parse_bic(lines[line_idx])?;
 
         Ok(Field54A {
